@@ -3,6 +3,7 @@ package drivers
 import (
 	"bufio"
 	"bytes"
+	"crypto"
 	"crypto/x509"
 	"crypto/x509/pkix"
 	"encoding/asn1"
@@ -285,6 +286,28 @@ func c07Cases(tier string, emit func(c c07Case)) {
 		emit(c07Case{"generalname", append([]byte{0xa4, byte(len(t))}, t...), fmt.Sprintf("generalname a4(tok#%d=%x)", ti, t), false})
 		emit(c07Case{"rdn", t, fmt.Sprintf("rdn tok#%d=%x", ti, t), false})
 		emit(c07Case{"rdn", append([]byte{0x30, byte(len(t))}, t...), fmt.Sprintf("rdn seq(tok#%d=%x)", ti, t), false})
+	}
+	// 6. signature algorithm identifiers the validator does not implement, as outer and / or inner algorithm, with and
+	//    without NULL parameters (zero signature value: refusing needs no key)
+	p := world.Std()
+	for _, oid := range world.OtherAlgOIDs {
+		for _, noNull := range []bool{false, true} {
+			other := world.SigAlg{Name: oid.String(), OID: oid, Hash: crypto.SHA256, NoNullParams: noNull}
+			for _, where := range []string{"both", "outer", "inner"} {
+				s := world.SimpleCRL(p.CA, 5, 101, 102)
+				s.Signer = nil
+				ec := world.SHA256EC
+				switch where {
+				case "both":
+					s.Alg = other
+				case "outer":
+					s.Alg, s.InnerAlg = other, &ec
+				case "inner":
+					s.Alg, s.InnerAlg = ec, &other
+				}
+				emit(c07Case{"readcrl", s.DER(), fmt.Sprintf("algorithm %s (%s, null-params=%v)", oid, where, !noNull), false})
+			}
+		}
 	}
 	// deep nesting of context tags for GetGeneralNameType (recursion)
 	for _, depth := range []int{10, 100, 1000, 2000, 5000} {
